@@ -51,6 +51,27 @@ def rejected(prop, files, requests, why):
     return fn
 
 
+def no_panic(prop, files, requests, why):
+    """whatever zinoma decides about this document, it decides the same every time, within 10 s, and never by panicking"""
+    def fn(pr):
+        for f, t in files.items():
+            pr.write(f, t)
+        for args in requests:
+            verdicts = []
+            for rep in range(3):
+                pr.remove(".zinoma")
+                r = pr.run(*args, timeout=10)
+                if r.timed_out:
+                    return {"property": prop, "expected": "%s: `zinoma %s` ends" % (why, " ".join(args)), "observed": "no exit within 10 s", "zinoma": r.brief()}
+                if "panicked" in r.out or r.rc not in (0, 1, 2):
+                    return {"property": prop, "expected": "%s: accepted or rejected with an error message, never a panic" % why, "observed": "exit %s: %s" % (r.rc, r.out[-300:]), "zinoma": r.brief()}
+                verdicts.append(r.rc == 0)
+            if len(set(verdicts)) != 1:
+                return {"property": prop, "expected": "%s: the same verdict on every invocation" % why, "observed": "accepted: %s" % verdicts}
+        return None
+    return fn
+
+
 def rejected_in(prop, files, cwd, requests, why):
     """like `rejected`, with zinoma started in the sub-directory `cwd` of the scratch tree"""
     inner = rejected(prop, files, requests, why)
@@ -99,6 +120,8 @@ def cases(seed, tier="quick"):
     for (n, files, reqs, why) in rej9:
         out.append(C("c09-" + n, rejected(["C09", "C14"], files, reqs, why), why))
     out.append(C("c09-unreachable-cycle-ok", accepted_runs("C09", {"zinoma.yml": yml({"ok": B("ok"), "a": B("a", dependencies=["b"]), "b": B("b", dependencies=["a"])})}, ["ok"], ["ok"], "a cycle that is not reachable from the request does not matter"), "only reachable references matter"))
+    wip = {"zinoma.yml": yml({"ok": B("ok", dependencies=["lib::fine"]), "wip1": B("wip1", dependencies=["nope"]), "wip2": B("wip2", dependencies=["ghost::t"]), "wip3": B("wip3", input=["nope.output"]), "svc": {"service": "sleep 30"}, "wip4": B("wip4", input=["svc.output"])}, name="root", imports={"lib": "lib"}), "lib/zinoma.yml": yml({"fine": B("fine"), "broken": B("broken", dependencies=["missing"])}, name="lib")}
+    out.append(C("c09-unreachable-broken-refs-ok", accepted_runs("C09", wip, ["ok"], ["ok", "fine"], "broken references in targets that are not reachable from the request (also in an imported project) do not matter"), "only reachable references matter"))
     out.append(C("c09-closure-exact", accepted_runs("C09", {"zinoma.yml": yml({"p": B("p", output=OUT), "c": B("c", input=["p.output"]), "d": B("d", dependencies=["c"]), "u": B("u"), "v": B("v", dependencies=["u"])})}, ["d"], ["p", "c", "d"], "closure through dependencies and X.output"), "exactly the reachable targets run"))
     out.append(C("c09-ref-in-own-project", accepted_runs(["C09", "C19"], {"zinoma.yml": yml({"t": B("root-t"), "top": B("top", dependencies=["lib::entry"])}, name="root", imports={"lib": "lib"}), "lib/zinoma.yml": yml({"entry": B("entry", dependencies=["t"]), "t": B("lib-t")}, name="lib")}, ["top"], ["top", "entry", "lib-t"], "a bare reference in lib's file means lib's own target"), "references resolve in the project of the referencing target"))
     dia = {"zinoma.yml": yml({"gen": B("root-gen"), "top": B("top", dependencies=["lib::a"])}, name="root", imports={"lib": "lib"}), "lib/zinoma.yml": yml({"a": B("a", dependencies=["b", "c"]), "b": B("b", dependencies=["gen"]), "c": B("c", dependencies=["gen"], input=["gen.output"]), "gen": B("lib-gen", output=OUT)}, name="lib")}
@@ -133,6 +156,11 @@ def cases(seed, tier="quick"):
         ("targets-not-map", {"zinoma.yml": "targets: 3\n"}, "targets of the wrong type"),
         ("empty-file", {"zinoma.yml": ""}, "an empty file"),
     ]
+    # odd spellings of references: whatever the verdict, it is the same every time and never a panic
+    for (n, ref) in (("empty-project", "::a"), ("empty-target", "root::"), ("three-parts", "a::b::c"), ("empty", ""), ("colons-only", "::::"), ("dot-output-only", ".output"), ("space", "a b")):
+        for named in (True, False):
+            doc = ("name: root\n" if named else "") + "targets:\n  a:\n    build: echo hi >> \"$ZLOG\"\n  t:\n    dependencies: [\"%s\"]\n    build: echo hi >> \"$ZLOG\"\n" % ref
+            out.append(C("c14-odd-ref-%s-%s" % (n, "named" if named else "unnamed"), no_panic("C14", {"zinoma.yml": doc}, [["t"], ["--clean"]], "a dependency spelled %r" % ref), "odd reference spelling %r" % ref))
     for (n, files, why) in rej14:
         out.append(C("c14-" + n, rejected(["C14", "C09", "C19"] if "duplicate" in n or "duplicated" in n else "C14", files, [["a"], ["--clean"]], why), why))
     # the same defects in a project imported from outside the root project's tree (sibling directory)
@@ -163,5 +191,12 @@ def cases(seed, tier="quick"):
     chain = {"zinoma.yml": yml({"top": B("top", dependencies=["app::mid"])}, name="root", imports={"app": "app"}), "app/zinoma.yml": yml({"mid": B("mid", dependencies=["lib::low"])}, name="app", imports={"lib": "../vendor/lib"}), "vendor/lib/zinoma.yml": yml({"low": B("low"), "extra": B("extra")}, name="lib")}
     out.append(C("c19-transitive-import-qualified", accepted_runs("C19", chain, ["lib::extra"], ["extra"], "a target of a project that is only imported by an imported project can be requested as project::target"), "every target of every loaded project can be requested"))
     out.append(C("c19-transitive-import-all", accepted_runs("C19", chain, ["top", "lib::low", "app::mid"], ["top", "mid", "low"], "qualified names of three loaded projects in one request"), "names across an import chain"))
+    same = {"zinoma.yml": yml({"build": B("root-build"), "test": B("root-test", dependencies=["build"])}, name="app", imports={"lib": "lib"}), "lib/zinoma.yml": yml({"build": B("lib-build", output=OUT), "test": B("lib-test", dependencies=["build"], input=["build.output"])}, name="lib")}
+    out.append(C("c19-same-spelling-two-projects", accepted_runs(["C19", "C09"], same, ["test", "lib::test"], ["root-build", "root-test", "lib-build", "lib-test"], "the bare reference `build` is written in the root and in lib: each means its own project's target"), "same bare spelling in two projects of one run"))
+    same2 = dict(same)
+    same2["zinoma.yml"] = yml({"build": B("root-build"), "test": B("root-test", dependencies=["build"])}, imports={"lib": "lib"})
+    out.append(C("c19-same-spelling-two-projects-unnamed-root", accepted_runs(["C19", "C09"], same2, ["lib::test", "test"], ["root-build", "root-test", "lib-build", "lib-test"], "the same with an unnamed root, the imported project requested first"), "same bare spelling, unnamed root"))
+    nest = {"zinoma.yml": yml({"check": {"dependencies": ["api::check"]}, "test": B("root-test"), "lint": B("root-lint")}, name="root", imports={"api": "api"}), "api/zinoma.yml": yml({"check": {"dependencies": ["test", "lint"]}, "test": B("api-test"), "lint": B("api-lint")}, name="api")}
+    out.append(C("c20-nested-aggregate-across-projects", accepted_runs(["C20", "C19", "C09"], nest, ["check"], ["api-test", "api-lint"], "root aggregate of an imported aggregate whose dependencies are spelled bare: they are api's targets"), "aggregate of an aggregate across projects"))
     out.append(C("c19-from-own-dir", accepted_runs("C19", two, ["t"], ["lib-t", "lib-helper"], "from lib's own directory the bare name is lib's target", cwd="lib"), "imported project as root"))
     return out
